@@ -42,6 +42,7 @@ import PS.Proofs.TtcfgBuild
 import PS.Proofs.TtcfgCleanLang
 import PS.Proofs.TtcfgBuildTerm
 import PS.Proofs.TtcfgCountS
+import PS.Proofs.TtcfgNoRepair
 namespace PS.T
 open PS PS.G
 
@@ -725,5 +726,102 @@ example : noUnknownDsl unin c = true ∧ wfDsl unin = true ∧
     onTable (sizeConstraint unin c 4 2 true true 1000) (fun G =>
       rowsNodup G && noUnknownKey G && noUnknownArg G &&
       programs G 20 == some 2 && programsR G 20 == some 1 && (langOf G 20).length == 1) = true := by decide +kernel
+
+/-! ### where `clean()` falls short (C13-F5, second half) and why removing rules cannot repair it -/
+
+/-- **criterion**: if the derivation machine of `G` can follow a sequence of symbols from the start
+    configuration, using only rules that derivations of programs of `G` use, into a configuration
+    whose next non-terminal has no rule in `G`, then EVERY table made of rules of `G` with the
+    language of `G` has a derivation that can be started and cannot be completed. -/
+theorem C13_no_repair_by_removal {S T : Type} [DecidableEq S] [DecidableEq T] (G G' : TT S T) (hstart : G'.start = G.start)
+    (hsub : ∀ nt P val, G'.rule? nt P = some val → G.rule? nt P = some val)
+    (hlang : ∀ t, PS.G.contains G' t = PS.G.contains G t)
+    (ts : List Prog) (hts : ∀ t ∈ ts, PS.G.contains G t = true) (syms : List Sym)
+    (a : Ty × S) (stk : List (Ty × S)) (v : T) (rs : List (NT S T × Sym))
+    (hw : walk G.rule? syms ([(G.start.1, G.start.2.1)], G.start.2.2) = some ((a :: stk, v), rs))
+    (hcover : ∀ x ∈ rs, ∃ t ∈ ts, x ∈ used G.rule? t (G.start.1, G.start.2.1) G.start.2.2)
+    (hdead : inRules G (a.1, (a.2, v)) = false) :
+    ∃ c, Steps G' ([(G'.start.1, G'.start.2.1)], G'.start.2.2) c ∧ ¬ ∃ w, Steps G' c ([], w) :=
+  no_repair_of_witness G G' hstart hsub (fun t => by rw [← C13_contains_run, ← C13_contains_run]; exact hlang t)
+    ts (fun t ht => by rw [← C13_contains_run]; exact hts t ht) syms a stk v rs hw hcover hdead
+
+namespace Ex
+namespace Sh
+def m : Ty := .base "m"
+def c1 : Ty := .base "c1"
+def c2 : Ty := .base "c2"
+def q : Ty := .base "q"
+def r : Ty := .base "r"
+def k1 : Sym := Sym.prim "k1" (fn [m, c1] r)
+def k2 : Sym := Sym.prim "k2" (fn [m, c2] r)
+def ff : Sym := Sym.prim "f" (fn [a, b] m)
+def xx : Sym := Sym.prim "x" a
+def hh : Sym := Sym.prim "h" (fn [a] a)
+def yy : Sym := Sym.prim "y" b
+def pp : Sym := Sym.prim "p" c1
+def g2 : Sym := Sym.prim "g2" (fn [q, q] c2)
+def q0 : Sym := Sym.prim "q0" q
+/-- k1 : m → c1 → r, k2 : m → c2 → r, f : a → b → m, x : a, h : a → a, y : b, p : c1, g2 : q → q → c2, q0 : q -/
+def dsl : Dsl := ⟨[k1, k2, ff, xx, hh, yy, pp, g2, q0], []⟩
+def p1 : Prog := .node k1 [.node ff [.node hh [leaf xx], leaf yy], leaf pp]            -- (k1 (f (h x) y) p), 6 nodes
+def p2 : Prog := .node k2 [.node ff [leaf xx, leaf yy], .node g2 [leaf q0, leaf q0]]    -- (k2 (f x y) (g2 q0 q0)), 7 nodes
+/-- the grammar `size_constraint(dsl, r, 7)` as the model builds it (code as it is now) -/
+def G : TT Ctx (Nat × Nat) := (tableOf (sizeConstraint dsl r 7 2 true true 3000)).getD ⟨(r, ([], (0, 0))), []⟩
+end Sh
+end Ex
+
+open Ex Ex.Sh in
+/-- **finding C13-F5, the part that no rule removal can repair.**  In `size_constraint(dsl, r, 7)`
+    the non-terminal `(a, (f,0), (2,3))` of the first argument of `f` is shared by the derivations
+    under `k1` and under `k2`.  Its rule `h` is needed by `(k1 (f (h x) y) p)`, but after
+    `k2, f, h, x, y` the second argument of `k2` (the only term of type c2 has 3 nodes) no longer
+    fits: the non-terminal `(c2, (k2,1), (5,1))` has no rule.  Hence EVERY table made of rules of
+    this grammar that has its language - whatever `clean()` is replaced by - has a derivation that
+    can be started and cannot be completed.  (`programs()` as it is counts 6, repaired 4 = the
+    size of the language.) -/
+theorem finding_C13_F5_no_repair :
+    (programs G 30 = some 6 ∧ programsR G 30 = some 4 ∧ (langOf G 30).length = 4) ∧
+    ∀ G' : TT Ctx (Nat × Nat), G'.start = G.start →
+      (∀ nt P val, G'.rule? nt P = some val → G.rule? nt P = some val) →
+      (∀ t, PS.G.contains G' t = PS.G.contains G t) →
+      ∃ c, Steps G' ([(G'.start.1, G'.start.2.1)], G'.start.2.2) c ∧ ¬ ∃ w, Steps G' c ([], w) := by
+  refine ⟨by decide +kernel, ?_⟩
+  intro G' hstart hsub hlang
+  have h1 : (walk G.rule? [k2, ff, hh, xx, yy] ([(G.start.1, G.start.2.1)], G.start.2.2)).map (·.1) =
+      some ([(c2, [(k2, 1)])], (5, 1)) := by decide +kernel
+  have h2 : ((walk G.rule? [k2, ff, hh, xx, yy] ([(G.start.1, G.start.2.1)], G.start.2.2)).elim [] (·.2)).all (fun x =>
+      [p1, p2].any (fun t => (used G.rule? t (G.start.1, G.start.2.1) G.start.2.2).contains x)) = true := by decide +kernel
+  cases hW : walk G.rule? [k2, ff, hh, xx, yy] ([(G.start.1, G.start.2.1)], G.start.2.2) with
+  | none => rw [hW] at h1; cases h1
+  | some res =>
+    obtain ⟨d, rs⟩ := res
+    rw [hW] at h1 h2
+    simp only [Option.map_some, Option.some.injEq] at h1
+    subst h1
+    simp only [Option.elim_some] at h2
+    refine C13_no_repair_by_removal G G' hstart hsub hlang [p1, p2] ?_ [k2, ff, hh, xx, yy] (c2, [(k2, 1)]) [] (5, 1) rs hW ?_ ?_
+    · have : ([p1, p2].all fun t => PS.G.contains G t) = true := by decide +kernel
+      intro t ht
+      exact List.all_eq_true.mp this t ht
+    · intro x hx
+      have h3 := List.all_eq_true.mp h2 x hx
+      rw [List.any_eq_true] at h3
+      obtain ⟨t, ht, hc⟩ := h3
+      exact ⟨t, ht, by simpa using hc⟩
+    · decide +kernel
+
+/-- **what `clean()` removes**: the table returned is the original one restricted to a set of marks
+    such that (1) a non-terminal of a configuration reachable from the start symbol that lost its
+    row is DEAD (no program is derivable from it in the original table), (2) a rule that was removed
+    from a kept non-terminal has a dead FIRST argument, (3) no non-terminal is invented. -/
+theorem C13_clean_removes_only_dead {S T : Type} [DecidableEq S] [DecidableEq T] (G G' : TT S T)
+    (hU : noUnknownKey G = true) (fuel : Nat) (h : clean G fuel = .ok G') :
+    ∃ nr : Marks S T, G' = restrict G nr ∧
+      (∀ c, Reach0 G c → AList.contains c.1 nr = true ∨ Dead G c.1) ∧
+      (∀ rule l, AList.lookup rule nr = some l → ∀ P args st, G.rule? rule P = some (args, st) →
+        P ∈ l ∨ ∃ a as, args = a :: as ∧ Dead G (a.1, (a.2, st))) ∧
+      (∀ rule, AList.contains rule nr = true → inRules G rule = true) := by
+  obtain ⟨nr, e, hinv⟩ := clean_result G G' hU fuel h
+  exact ⟨nr, e, hinv.reach, hinv.kept, hinv.sub⟩
 
 end PS.T
